@@ -29,3 +29,31 @@ class Syntax:
     def classify(self, text):
         """text -> sequence of character-class numbers (what the TLA+ lexer machines read)."""
         return [self.cls_of[min(ord(c), 128)] for c in text]
+
+
+# rule contexts the sentence generator is started in (token names; each is a viable prefix of a script)
+_META = "PROGNAME NAME NEWLINE VERSION FLOAT NEWLINE"
+CONTEXTS = {
+    "start": "",
+    "program": _META,
+    "metadata-options": "PROGNAME NAME NEWLINE VERSION FLOAT NEWLINE TARGET NAME LBRAC NAME ASSIGN",
+    "type-and-include": "PROGNAME NAME NEWLINE VERSION FLOAT NEWLINE PROGTYPE NAME NEWLINE INCLUDE STR NEWLINE",
+    "scalar-declaration": _META + " TYPE_FLOAT NAME ASSIGN",
+    "array-header": _META + " TYPE_INT TYPE_ARRAY NAME LSQBRAC INT COMMA",
+    "array-body": _META + " TYPE_FLOAT TYPE_ARRAY NAME ASSIGN NEWLINE TAB INT COMMA FLOAT NEWLINE",
+    "arguments": _META + " NAME LBRAC INT COMMA",
+    "keyword-arguments": _META + " NAME LBRAC NAME ASSIGN LSQBRAC INT COMMA",
+    "expression": _META + " NAME LBRAC MINUS INT PWR",
+    "modes": _META + " NAME APPLY LSQBRAC INT COMMA",
+    "after-statement": _META + " MEASURE APPLY INT NEWLINE",
+    "loop-header": _META + " FOR TYPE_INT NAME IN",
+    "loop-range": _META + " FOR TYPE_INT NAME IN INT COLON INT",
+    "loop-list": _META + " FOR TYPE_FLOAT NAME IN LSQBRAC FLOAT COMMA",
+    "loop-body": _META + " FOR TYPE_INT NAME IN INT COLON INT NEWLINE TAB NAME APPLY NAME NEWLINE",
+    "loop-body-second": _META + " FOR TYPE_INT NAME IN INT COLON INT NEWLINE TAB NAME APPLY NAME NEWLINE TAB NAME LBRAC NAME RBRAC APPLY INT NEWLINE",
+    "parameter": _META + " NAME LBRAC LBRACE",
+}
+
+
+def context_tokens(g, name):
+    return [g.toknum[n] for n in CONTEXTS[name].split()]
